@@ -33,7 +33,7 @@ import (
 type Op struct {
 	Kind    string `json:"kind"`            // read write transform
 	Len     int    `json:"len,omitempty"`   // write: length class index
-	TKind   string `json:"tkind,omitempty"` // transform: longer shorter same error unchanged
+	TKind   string `json:"tkind,omitempty"` // transform: longer shorter same error unchanged aliasprefix aliasappend tonil (the function returns a nil slice: empty contents)
 	Delta   int    `json:"delta,omitempty"`
 	Yield   int    `json:"yield,omitempty"`    // yields inside the transform function
 	EOFData bool   `json:"eof_data,omitempty"` // write: the content reader returns its last chunk together with io.EOF
@@ -79,7 +79,7 @@ func genOp(t *rapid.T) Op {
 		op.EOFData = rapid.IntRange(0, 3).Draw(t, "eofdata") == 0
 	default:
 		op.Kind = "transform"
-		op.TKind = rapid.SampledFrom([]string{"longer", "shorter", "same", "error", "unchanged", "longer", "shorter", "aliasprefix", "aliasprefix", "aliasappend"}).Draw(t, "tkind")
+		op.TKind = rapid.SampledFrom([]string{"longer", "shorter", "same", "error", "unchanged", "longer", "shorter", "aliasprefix", "aliasprefix", "aliasappend", "tonil"}).Draw(t, "tkind")
 		op.Delta = rapid.SampledFrom([]int{1, 7, 300, 5000, 40000}).Draw(t, "delta")
 		op.Yield = rapid.IntRange(0, 2).Draw(t, "yield")
 	}
@@ -187,7 +187,7 @@ func identOf(v []byte) int {
 
 const (
 	absent = -1
-	empty  = -3 // the file exists with no contents (only the fresh-file scenario can reach it)
+	empty  = -3 // the file exists with no contents (the fresh-file scenario, or a Transform whose function returned no bytes)
 )
 
 type input struct {
@@ -325,6 +325,15 @@ func run(t *testing.T, plan any, keep bool) *simcheck.Outcome {
 	}
 
 	concurrentOps := 0
+	emptyReads := 0
+	canEmpty := false
+	for _, tp := range p.Tasks {
+		for _, op := range tp.Ops {
+			if op.Kind == "transform" && op.TKind == "tonil" {
+				canEmpty = true
+			}
+		}
+	}
 	inflight := 0
 	faultFired := false
 	doubleFault := p.Fault != nil && p.Fault.Double
@@ -362,6 +371,12 @@ func run(t *testing.T, plan any, keep bool) *simcheck.Outcome {
 				head := data
 				if len(head) > 40 {
 					head = head[:40]
+				}
+				if len(data) == 0 && !p.Fresh && canEmpty {
+					// some Transform of this plan empties the file: whether this Read may see that is the model's business
+					emptyReads++
+					ret(r, client, eid, output{id: empty})
+					return
 				}
 				if len(data) == 0 {
 					out.Violate("empty-read", "Read returned empty contents although the file always held a complete value")
@@ -409,6 +424,14 @@ func run(t *testing.T, plan any, keep bool) *simcheck.Outcome {
 				case "unchanged":
 					newID = o.id
 					return old, nil
+				case "tonil":
+					// a filter that keeps nothing: nil is the ordinary way to return empty contents
+					if p.Fresh {
+						newID = o.id // (the fresh-file scenario keeps its empty state for the known finding F2)
+						return old, nil
+					}
+					newID = empty
+					return nil, nil
 				case "longer":
 					v := value(opid, len(old)+op.Delta)
 					newID = identOf(v)
@@ -465,7 +488,7 @@ func run(t *testing.T, plan any, keep bool) *simcheck.Outcome {
 				}
 			})
 			o.err = err != nil
-			if err == nil && newID == empty {
+			if err == nil && newID == empty && p.Fresh {
 				newID = absent // an unchanged empty file
 			}
 			// patch the invoke event with the value actually produced
@@ -524,6 +547,8 @@ func run(t *testing.T, plan any, keep bool) *simcheck.Outcome {
 			case len(data) == 0 && p.Fresh && !r.published:
 				// the file was created and nothing was ever published
 				dropCall(r, eid)
+			case len(data) == 0 && !p.Fresh && canEmpty:
+				ret(r, 98, eid, output{id: empty})
 			default:
 				id, ok := parse(data)
 				if !ok {
@@ -578,6 +603,7 @@ func run(t *testing.T, plan any, keep bool) *simcheck.Outcome {
 	out.Count("flock_calls", simsys.Calls)
 	out.Count("probe_lock_request_blocked", ops["flock-blocked"])
 	out.Count("ops_started_while_another_in_flight", int64(concurrentOps))
+	out.Count("reads_of_contents_emptied_by_a_transform", int64(emptyReads))
 	for k, v := range fired {
 		out.Count("fired_"+k, v)
 	}
@@ -611,7 +637,7 @@ func describe(evs []porcupine.Event) string {
 var harness = &simcheck.Harness{
 	Property: "C07",
 	Level:    "exploration",
-	Rule: "rapid draws 1-3 simulated processes x 1-2 goroutines x 1-4 operations (Read, Write of a self-checking value of length 0..70000 fed in chunks, Transform producing a longer / shorter / same-length / unchanged value, a prefix of or an in-place extension of the slice it was given, or failing) " +
+	Rule: "rapid draws 1-3 simulated processes x 1-2 goroutines x 1-4 operations (Read, Write of a self-checking value of length 0..70000 fed in chunks, Transform producing a longer / shorter / same-length / unchanged value, a prefix of or an in-place extension of the slice it was given, no bytes at all (a nil slice; files that exist at the start only), or failing) " +
 		"on one file, or spread over two files (a quarter of the plans; each file is its own register), that exist (5 of 6) or are absent at the start, named directly or (two plans in five) through a symbolic link by all or by every other client; a third of the plans add one Transform in its own process whose k-th file operation (open, flock, read, write, truncate, close) fails with EIO / ENOSPC / ENOSYS or writes short then fails; thorough adds double faults; " +
 		"torn transfers on/off; histories of at most 24 operations are checked with porcupine; non-trivial = some operation started while another was in flight; distinct by decision-trace hash",
 	Gen:     genPlan,
